@@ -1033,3 +1033,115 @@ def soft_skygrid_distribution_case(n=4, grid_n=3):
 
     return Case("SoftPiecewiseConstantCoalescentGrid[temperature=None].log_prob", params, build,
                 {"taxa-1": n - 1, "grid+1": grid_n + 1})
+
+
+# ----------------------------------------------------------------------------- Distribution wrappers as likelihood terms
+def _fixed(shape, seed, kind):
+    g = torch.Generator().manual_seed(seed)
+    if kind == "simplex":
+        x = u(0.5, 2.0)(g, shape)
+        return x / x.sum(-1, keepdim=True)
+    if kind == "pos":
+        return u(0.3, 3.0)(g, shape)
+    return u(-2.0, 2.0)(g, shape)
+
+
+LIK_FAMILIES = {
+    # name: (torch class, event rank, kind of x, {parameter: (kind, trailing shape as function of d)})
+    "Normal": ("Normal", 0, "real", {"loc": ("real", ()), "scale": ("pos", ())}),
+    "Gamma": ("Gamma", 0, "pos", {"concentration": ("pos", ()), "rate": ("pos", ())}),
+    "Exponential": ("Exponential", 0, "pos", {"rate": ("pos", ())}),
+    "Laplace": ("Laplace", 0, "real", {"loc": ("real", ()), "scale": ("pos", ())}),
+    "Dirichlet": ("Dirichlet", 1, "simplex", {"concentration": ("pos", ("d",))}),
+    "MultivariateNormal": ("MultivariateNormal", 1, "real", {"loc": ("real", ("d",)), "scale_tril": ("tril", ("d", "d"))}),
+}
+
+
+def case_likelihood_term(family, data_shape, d=4, joint=None):
+    """`Distribution(torch family, x, parameters)` used as a LIKELIHOOD TERM: x is fixed data of shape
+    data_shape + event_shape (data_shape = () is exactly one event, the degenerate end of the index arithmetic in
+    `_sample_shape`), the parameters have one value per sample: shape [*sample] + (1,)*len(data_shape) + trailing.
+    joint=None: the term itself; 'alone': JointDistributionModel([term]); 'prior': JointDistributionModel([term,
+    prior on its first parameter]) — the prior is a properly batched term (its x is the batched parameter)."""
+    from torchtree.distributions.distributions import Distribution
+    from torchtree.distributions.joint_distribution import JointDistributionModel
+
+    td = torch.distributions
+    cls_name, ev, xkind, pspec = LIK_FAMILIES[family]
+    klass = getattr(td, cls_name)
+    ones = (1,) * len(data_shape)
+    x = _fixed(tuple(data_shape) + ((d,) if ev else ()), 11 + len(data_shape), xkind)
+
+    def trailing(t):
+        return tuple(d if a == "d" else a for a in t)
+
+    def pgen(kind, shape):
+        if kind == "tril":
+            def gen(g):
+                a = torch.tril(u(-1.0, 1.0)(g, shape), -1)
+                return a + torch.diag_embed(u(0.5, 2.0)(g, shape[:-1]))
+            return P(shape, gen)
+        return {"real": real, "pos": pos}[kind](*shape) if shape else P((), lambda g, k=kind: (u(0.3, 3.0) if k == "pos" else u(-2.0, 2.0))(g, ()))
+
+    params = {k: pgen(kind, ones + trailing(t)) for k, (kind, t) in pspec.items()}
+    first = next(iter(pspec))
+
+    def mk_term(v):
+        return Distribution("lik", klass, Parameter("x", x.clone()),
+                            OrderedDict((k, Parameter(k, v[k])) for k in pspec))
+
+    def mk_prior(v, term):
+        # a prior on the first parameter: its x IS the (possibly batched) parameter object of the term
+        p = term.dict_parameters[first]
+        fam = td.Gamma if pspec[first][0] == "pos" else td.Normal
+        pp = OrderedDict(concentration=Parameter("a", torch.tensor([2.0])), rate=Parameter("b", torch.tensor([1.5]))) \
+            if fam is td.Gamma else OrderedDict(loc=Parameter("m", torch.tensor([0.2])), scale=Parameter("s", torch.tensor([1.7])))
+        return Distribution("prior", fam, p, pp)
+
+    tag = f"{family},data={'x'.join(map(str, data_shape)) or 'one-event'}" + (f",d={d}" if ev else "")
+    dims = {"event": d} if ev else {}
+    for i, n in enumerate(data_shape):
+        dims[f"data{i}"] = n
+    if joint is None:
+        return Case(f"LikelihoodTerm[{tag}]", params, None, dims, mk=mk_term)
+    if joint == "alone":
+        def build(v):
+            return JointDistributionModel("j", [mk_term(v)])()
+
+        def spec(v):
+            return mk_term(v)().sum().reshape(())
+
+        c = Case(f"Joint[LikelihoodTerm[{tag}]]", params, build, dims)
+        c.spec = spec
+        c.components = [f"LikelihoodTerm[{tag}]"]
+        c.claims = lambda v: [(f"LikelihoodTerm[{tag}]", tuple(mk_term(v).sample_shape))]
+        return c
+
+    def build2(v):
+        t = mk_term(v)
+        return JointDistributionModel("j", [t, mk_prior(v, t)])()
+
+    def spec2(v):
+        t = mk_term(v)
+        return (t().sum() + mk_prior(v, t)().sum()).reshape(())
+
+    c = Case(f"Joint[LikelihoodTerm[{tag}];PriorOn[{first}]]", params, build2, dims)
+    c.spec = spec2
+    c.components = [f"LikelihoodTerm[{tag}]", f"PriorOn[{first}]"]
+
+    def claims(v):
+        t = mk_term(v)
+        return [(f"LikelihoodTerm[{tag}]", tuple(t.sample_shape)), (f"PriorOn[{first}]", tuple(mk_prior(v, t).sample_shape))]
+
+    c.claims = claims
+    c.first = first
+    return c
+
+
+def likelihood_term_cases():
+    out = []
+    for family, (_c, ev, _k, _p) in LIK_FAMILIES.items():
+        for data_shape in ((), (3,), (2, 3)):
+            for joint in (None, "alone", "prior"):
+                out.append(case_likelihood_term(family, data_shape, 4, joint))
+    return out
